@@ -925,3 +925,117 @@ fn model_iter_map_collect_left_to_right_stops_at_first_err() {
     }
     std::mem::forget(r);
 }
+
+// =============================================================== composite instructions through the REAL Instruction::exec
+// (thorough tier: everything reachable from Instruction::exec is the whole crate, 3-7 min of goto processing per harness).
+// Needs cbmc --max-field-sensitivity-array-size 256 (ArcInner<BinOperation> > 64 bytes) AND the RandomState stub:
+// HashMap::new() -> RandomState::new() -> weak-linked libc getrandom through a function pointer, which CBMC's function-pointer
+// removal resolves to hashbrown's rehash closure; symex then hashes garbage forever.
+use crate::instruction::{ExecResult, ExecStop, InstructionWithStr};
+pub fn stub_random_state() -> std::hash::RandomState {
+    unsafe { std::mem::transmute::<[u64; 2], std::hash::RandomState>([0, 0]) }
+}
+macro_rules! harness_i {
+    ($name:ident, $body:block) => {
+        #[kani::proof]
+        #[kani::stub(crate::variable::Variable::string, stub_string)]
+        #[kani::stub(crate::variable::Variable::debug, stub_string)]
+        #[kani::stub(std::hash::RandomState::new, stub_random_state)]
+        fn $name() $body
+    };
+}
+fn obs_stop(r: &ExecResult) -> Obs {
+    match r {
+        Ok(v) => obs_var(v),
+        Err(ExecStop::Error(e)) => Obs { tag: err_code(e), i: 0, f: 0, b: false },
+        Err(ExecStop::Break) => Obs { tag: 20, i: 0, f: 0, b: false },
+        Err(ExecStop::Continue) => Obs { tag: 21, i: 0, f: 0, b: false },
+        Err(ExecStop::Return(_)) => Obs { tag: 22, i: 0, f: 0, b: false },
+    }
+}
+fn binop(lhs: Instruction, rhs: Instruction, op: BinOperator) -> Instruction {
+    Instruction::BinOperation(Arc::new(BinOperation { lhs, rhs, op }))
+}
+fn iws(instruction: Instruction) -> InstructionWithStr {
+    InstructionWithStr { instruction, str: Arc::from("") }
+}
+/// 1 / 0 : fails with ZeroDivision when evaluated
+fn fails_zdiv() -> Instruction { binop(int(1), int(0), BinOperator::Divide) }
+/// 1 << 64 : fails with OverflowShift when evaluated
+fn fails_shift() -> Instruction { binop(int(1), int(64), BinOperator::LShift) }
+
+harness_i!(c07_binop_exec_subtract_through_dispatch, {
+    let (a, b): (i64, i64) = (kani::any(), kani::any());
+    let op = BinOperation { lhs: int(a), rhs: int(b), op: BinOperator::Subtract };
+    let mut interp = Interpreter::without_stdlib();
+    let r = op.exec(&mut interp);
+    let o = obs_stop(&r);
+    std::mem::forget(r);
+    std::mem::forget(op);
+    std::mem::forget(interp);
+    assert!(o.tag == 0 && o.i == a.wrapping_sub(b));
+});
+harness_i!(c07_binop_exec_and_short_circuit, {
+    let rhs = fails_zdiv();
+    let op = BinOperation { lhs: boo(false), rhs, op: BinOperator::And };
+    let mut interp = Interpreter::without_stdlib();
+    let r = op.exec(&mut interp);
+    let o = obs_stop(&r);
+    std::mem::forget(r);
+    std::mem::forget(op);
+    std::mem::forget(interp);
+    assert!(o.tag == 2 && o.b == false);
+});
+harness_i!(c07_binop_exec_and_true_evaluates_rhs, {
+    let rhs = fails_zdiv();
+    let op = BinOperation { lhs: boo(true), rhs, op: BinOperator::And };
+    let mut interp = Interpreter::without_stdlib();
+    let r = op.exec(&mut interp);
+    let o = obs_stop(&r);
+    std::mem::forget(r);
+    std::mem::forget(op);
+    std::mem::forget(interp);
+    assert!(o.tag == E_ZDIV);
+});
+harness_i!(c07_binop_exec_lhs_before_rhs, {
+    // both operands fail, with different errors: the error tells which one was evaluated first
+    let op = BinOperation { lhs: fails_zdiv(), rhs: fails_shift(), op: BinOperator::Add };
+    let mut interp = Interpreter::without_stdlib();
+    let r = op.exec(&mut interp);
+    let o = obs_stop(&r);
+    std::mem::forget(r);
+    std::mem::forget(op);
+    std::mem::forget(interp);
+    assert!(o.tag == E_ZDIV);
+});
+harness_i!(c12_if_else_exec_selects_branch, {
+    let c: bool = kani::any();
+    let (x, y): (i64, i64) = (kani::any(), kani::any());
+    let ie = crate::instruction::control_flow::IfElse {
+        condition: iws(boo(c)),
+        if_true: iws(int(x)),
+        if_false: iws(int(y)),
+    };
+    let mut interp = Interpreter::without_stdlib();
+    let r = ie.exec(&mut interp);
+    let o = obs_stop(&r);
+    std::mem::forget(r);
+    std::mem::forget(ie);
+    std::mem::forget(interp);
+    assert!(o.tag == 0 && o.i == if c { x } else { y });
+});
+harness_i!(c12_if_else_exec_untaken_branch_not_evaluated, {
+    let c: bool = kani::any();
+    let ie = crate::instruction::control_flow::IfElse {
+        condition: iws(boo(c)),
+        if_true: iws(fails_zdiv()),
+        if_false: iws(fails_shift()),
+    };
+    let mut interp = Interpreter::without_stdlib();
+    let r = ie.exec(&mut interp);
+    let o = obs_stop(&r);
+    std::mem::forget(r);
+    std::mem::forget(ie);
+    std::mem::forget(interp);
+    assert!(o.tag == if c { E_ZDIV } else { E_SHIFT });
+});
